@@ -799,6 +799,10 @@ func handleType(params internal.HandlerFuncParams) ([]byte, error) {
 	}
 
 	value := params.GetValues(params.Context, []string{key})[key]
+	if value == nil {
+		// The key has expired (or was removed) since the existence check.
+		return nil, fmt.Errorf("key %s does not exist", key)
+	}
 	t := reflect.TypeOf(value)
 	type_string := ""
 	switch t.Kind() {
